@@ -67,7 +67,11 @@ var ggIdents = []string{"a", "b", "x", "y", "n", "err", "v", "items", "ok", "i"}
 func (g *gg) lit() string {
 	switch g.int("litkind", 0, 7) {
 	case 0:
-		return g.pick("intlit", "0", "1", "42", "0x1f", "1_000", "0b101", "0o17")
+		l := g.pick("intlit", "0", "1", "42", "0x1f", "1_000", "0b101", "0o17", "0755", "007")
+		if len(l) > 1 && l[0] == '0' && l[1] >= '0' && l[1] <= '7' {
+			g.feat("legacy-octal")
+		}
+		return l
 	case 1:
 		return g.pick("floatlit", "1.5", "0.25", "1e3", "2.5e-3", ".5")
 	case 2:
